@@ -266,8 +266,8 @@ func (c *Conn) handleFrames(now time.Time, dgram *datagram, ptype packetType, sp
 		return false
 	}
 	// frameOK verifies that ptype is one of the packets in mask.
-	frameOK := func(c *Conn, ptype, mask packetType) (ok bool) {
-		if ptype&mask == 0 {
+	frameOK := func(c *Conn, ptype packetType, mask uint8) (ok bool) {
+		if (1<<ptype)&mask == 0 {
 			// "An endpoint MUST treat receipt of a frame in a packet type
 			// that is not permitted as a connection error of type
 			// PROTOCOL_VIOLATION."
@@ -283,9 +283,9 @@ func (c *Conn) handleFrames(now time.Time, dgram *datagram, ptype packetType, sp
 	// Packet masks from RFC 9000 Table 3.
 	// https://www.rfc-editor.org/rfc/rfc9000#table-3
 	const (
-		IH_1 = packetTypeInitial | packetTypeHandshake | packetType1RTT
-		__01 = packetType0RTT | packetType1RTT
-		___1 = packetType1RTT
+		IH_1 = 1<<packetTypeInitial | 1<<packetTypeHandshake | 1<<packetType1RTT
+		__01 = 1<<packetType0RTT | 1<<packetType1RTT
+		___1 = 1 << packetType1RTT
 	)
 	hasCrypto := false
 	for len(payload) > 0 {
